@@ -22,6 +22,12 @@ A snapshot is the ordered list of (topic id, partition count); topic ids are abs
 the harness maps them to legal names.  Snapshots are assumed to carry distinct names (created
 topics are checked against the list, CRD names are unique).
 
+Transient etcd errors are steps too (`getFail`, `beginFail`, `commitFail`): a call whose `Get`,
+mutation closure (`DeleteTopic`'s offset cleanup) or txn errors returns that error at once and leaves
+the mutation in the local copy; nothing is acknowledged.  The NEXT `updateSnapshot` on that broker
+re-reads the key before it mutates (`beginB` starts from `s.etcd`), which is what makes the dirty
+copy harmless; `stepFast` is the variant whose refresh has a "revision already loaded" fast path.
+
 `…Old` = the code before the fixes: no refresh, unconditional `Put` of the local copy; merge takes
 the resource's partition count.
 -/
@@ -44,6 +50,8 @@ deriving Repr, DecidableEq
 
 inductive Res where
   | ok | exists_ | invalid | unknown | conflict | pending
+  /-- an etcd operation of the call failed (transient etcd error): the caller gets an error, no acknowledgement -/
+  | err
 deriving Repr, DecidableEq
 
 /-- The mutation closures of `EtcdStore.CreateTopic / CreatePartitions / DeleteTopic` on the local
@@ -101,6 +109,17 @@ inductive Step where
   | deliver (b : Nat) (r : Nat)
   | opGet (crd : Snap)
   | opTxn
+  /-- the refresh `Get` of a call's first attempt fails: the call returns the error, nothing changes -/
+  | getFail (b : Nat)
+  /-- refresh + mutate, but the mutation closure fails AFTER it changed the local copy
+  (`DeleteTopic`: `s.metadata.DeleteTopic` done, then the etcd `Delete` of the offset keys errors):
+  no write is attempted, the call returns the error, the local copy stays mutated ("dirty") -/
+  | beginFail (b : Nat) (op : TOp)
+  /-- the pending txn fails with an etcd error (or, after a conflict, the `Get` of the next attempt
+  does).  `applied = false`: the request never took effect; `applied = true`: etcd executed the txn
+  but the answer was lost.  Either way the call returns the error (no acknowledgement, no retry) and
+  the local copy keeps the mutation -/
+  | commitFail (b : Nat) (applied : Bool)
 deriving Repr
 
 def maxAttempts : Nat := 5
@@ -116,6 +135,31 @@ def beginB (s : State) (b : Nat) (op : TOp) (att : Nat) : State × Res :=
   let r := applyL l0 op
   if r.2 = .ok then ({ s with brokers := upd s.brokers b { loc := r.1, pend := some (s.rev, op, att) } }, .pending)
   else ({ s with brokers := upd s.brokers b { loc := l0, pend := none } }, r.2)
+
+/-- refresh + mutate, then the closure fails (see `Step.beginFail`): when the local mutation is
+refused (`exists`/`unknown`/`invalid`) no etcd operation is reached and the call answers as usual. -/
+def beginFailB (s : State) (b : Nat) (op : TOp) : State × Res :=
+  let l0 := s.etcd.getD (s.brokers b).loc
+  let r := applyL l0 op
+  if r.2 = .ok then ({ s with brokers := upd s.brokers b { loc := r.1, pend := none } }, .err)
+  else ({ s with brokers := upd s.brokers b { loc := l0, pend := none } }, r.2)
+
+/-- what a write whose answer was lost does to the ghost: nothing was acknowledged, but an applied
+`DeleteTopic` IS an explicit deletion -/
+def ackLost (acked : List (Nat × Nat)) : TOp → List (Nat × Nat)
+  | .delete t => acked.filter fun e => e.1 != t
+  | _ => acked
+
+/-- the txn of a pending update errors (see `Step.commitFail`). -/
+def commitFailB (s : State) (b : Nat) (applied : Bool) : State × Res :=
+  match (s.brokers b).pend with
+  | none => (s, .pending)
+  | some (r, op, _) =>
+    if applied = true ∧ r = s.rev then
+      ({ s with etcd := some (s.brokers b).loc, rev := s.rev + 1,
+                brokers := upd s.brokers b { loc := (s.brokers b).loc, pend := none },
+                acked := ackLost s.acked op, hist := s.hist ++ [(s.brokers b).loc] }, .err)
+    else ({ s with brokers := upd s.brokers b { loc := (s.brokers b).loc, pend := none } }, .err)
 
 /-- the txn (second half); on conflict the next attempt's refresh + mutate follow at once. -/
 def commitB (s : State) (b : Nat) : State × Res :=
@@ -151,6 +195,9 @@ def step (mg : Snap → Snap → Snap) (s : State) : Step → State × Res
       else if att + 1 < maxAttempts then
         ({ s with opPend := some (s.rev, mergeOpt mg payload s.etcd, att + 1) }, .pending)
       else ({ s with opPend := none }, .conflict)
+  | .getFail b => if (s.brokers b).pend.isSome then (s, .pending) else (s, .err)
+  | .beginFail b op => if (s.brokers b).pend.isSome then (s, .pending) else beginFailB s b op
+  | .commitFail b applied => commitFailB s b applied
 
 def run (mg : Snap → Snap → Snap) (s : State) (steps : List Step) : State :=
   steps.foldl (fun s st => (step mg s st).1) s
@@ -198,6 +245,59 @@ def stepSeeded (mg : Snap → Snap → Snap) (s : State) : Step → State × Res
 
 def runSeeded (mg : Snap → Snap → Snap) (s : State) (steps : List Step) : State :=
   steps.foldl (fun s st => (stepSeeded mg s st).1) s
+
+/-! ### a refresh with a "this revision is already loaded" fast path (seeded variant, NOT the code) -/
+
+/-- the model state plus, per broker, the mod revision whose snapshot was last decoded into the
+local copy (`loadedRev`; 0 = none yet) -/
+structure FState where
+  s : State
+  loaded : Nat → Nat
+
+/-- `refreshSnapshotLocked` that skips decoding when etcd still holds the revision it loaded last:
+the local copy it leaves (and the new `loadedRev` table).  A local copy that a FAILED call left
+mutated is not discarded as long as nobody else writes the key. -/
+def refreshFast (f : FState) (b : Nat) : Snap × (Nat → Nat) :=
+  match f.s.etcd with
+  | none => ((f.s.brokers b).loc, f.loaded)
+  | some e =>
+    if f.s.rev = f.loaded b then ((f.s.brokers b).loc, f.loaded)
+    else (e, fun i => if i = b then f.s.rev else f.loaded i)
+
+def beginFast (f : FState) (b : Nat) (op : TOp) (att : Nat) (failMut : Bool) : FState × Res :=
+  let rf := refreshFast f b
+  let r := applyL rf.1 op
+  if r.2 = .ok then
+    if failMut then
+      ({ s := { f.s with brokers := upd f.s.brokers b { loc := r.1, pend := none } }, loaded := rf.2 }, .err)
+    else
+      ({ s := { f.s with brokers := upd f.s.brokers b { loc := r.1, pend := some (f.s.rev, op, att) } }, loaded := rf.2 }, .pending)
+  else ({ s := { f.s with brokers := upd f.s.brokers b { loc := rf.1, pend := none } }, loaded := rf.2 }, r.2)
+
+def stepFast (mg : Snap → Snap → Snap) (f : FState) : Step → FState × Res
+  | .begin b op => if (f.s.brokers b).pend.isSome then (f, .pending) else beginFast f b op 0 false
+  | .beginFail b op => if (f.s.brokers b).pend.isSome then (f, .pending) else beginFast f b op 0 true
+  | .commit b =>
+    match (f.s.brokers b).pend with
+    | none => (f, .pending)
+    | some (r, op, att) =>
+      if r = f.s.rev then ({ f with s := (commitB f.s b).1 }, .ok)
+      else if att + 1 < maxAttempts then beginFast f b op (att + 1) false
+      else ({ f with s := (commitB f.s b).1 }, .conflict)
+  | .watch b =>
+    if (f.s.brokers b).pend.isSome then (f, .pending)
+    else ({ s := { f.s with brokers := upd f.s.brokers b { loc := (refreshFast f b).1, pend := none } },
+            loaded := (refreshFast f b).2 }, .pending)
+  | .deliver b _ =>
+    if (f.s.brokers b).pend.isSome then (f, .pending)
+    else ({ s := { f.s with brokers := upd f.s.brokers b { loc := (refreshFast f b).1, pend := none } },
+            loaded := (refreshFast f b).2 }, .pending)
+  | st => ({ f with s := (step mg f.s st).1 }, (step mg f.s st).2)
+
+def runFastF (mg : Snap → Snap → Snap) (s : State) (steps : List Step) : FState :=
+  steps.foldl (fun f st => (stepFast mg f st).1) ({ s := s, loaded := fun _ => 0 } : FState)
+
+def runFast (mg : Snap → Snap → Snap) (s : State) (steps : List Step) : State := (runFastF mg s steps).s
 
 /-! ### the property -/
 
